@@ -163,6 +163,7 @@ class Ctx:
                     pass
             boot.cancel_all_timers()
             boot.R.rightNow = boot.EPOCH
+            boot.set_thread_mode(False)
         boot.reseed(0)
 
     def drive(self, strategy, n, run_case, shrink=True):
